@@ -915,7 +915,10 @@ def translate_decode_step(tree):
             and isinstance(s_arg.value, ast.Call) and isinstance(s_arg.value.func, ast.Name) and s_arg.value.func.id == "to_arg"):
         raise Decline("processed_arg = to_arg(...)")
     want_args = ["opcode", "arg", "next_offset", "found_names", "found_varnames", "freevars", "found_cellvars", "found_constants"]
-    if [ast.dump(a) for a in s_arg.value.args] != [_load(n) for n in want_args] or s_arg.value.keywords:
+    got_args = [ast.dump(a) for a in s_arg.value.args]
+    # the third argument - the base relative jumps are resolved against - is translated; the others are compared
+    if (len(got_args) != len(want_args) or s_arg.value.keywords
+            or [g for k, g in enumerate(got_args) if k != 2] != [_load(n) for k, n in enumerate(want_args) if k != 2]):
         raise Decline("arguments of to_arg")
     # instruction = Instruction(name=dis.opname[opcode], arg=processed_arg, _n_args_override=n_args_override,
     #                           line_number=<pop>, _line_offsets_override=tuple(<pop with default>))
@@ -952,10 +955,16 @@ def translate_decode_step(tree):
         if isinstance(n, ast.Name) and isinstance(n.ctx, ast.Store) and n.id not in state:
             raise Decline("local of the decoding loop: " + n.id)
     text = stmts(ctx, [s_if2])
+    bctx = Ctx({}, {"offset": "Z", "next_offset": "Z", "n_args": "Z"}, {}, RECORDS, {})
+    base = expr(bctx, s_arg.value.args[2])
+    if base.ty != "Z":
+        raise Decline("base of the relative jumps")
     fields = [("v_" + a, COQ_TY[t], DEFAULT[t]) for a, t in state.items()]
     return ("Module DecodeStep.\n%s\n"
             "Definition size_and_targets (is_jump : bool) (jump_target n_args a offset next_offset : Z) (s : st) : res st :=\n  %s.\n"
-            "End DecodeStep.\n" % (record_decl(fields), text))
+            "(* the offset passed to to_arg, against which relative jumps are resolved *)\n"
+            "Definition jump_base (n_args offset next_offset : Z) : Z := %s.\n"
+            "End DecodeStep.\n" % (record_decl(fields), text, base.text))
 
 
 # ---------------------------------------------------------------------------------------------------------
